@@ -48,6 +48,18 @@ class _Continue(Exception):
     pass
 
 
+class ExtObj:
+    """A model instance of an external class (pathlib.Path, io.TextIOBase): only its class name and a few attributes."""
+
+    def __init__(self, kind, text=None, **attrs):
+        self.kind = kind
+        self.text = text
+        self.attrs = attrs
+
+    def __str__(self):
+        return self.text if self.text is not None else f"<{self.kind}>"
+
+
 class TextSink:
     """A model output file: records the text written to it (write / print(file=...)); nothing reaches the disk."""
 
@@ -107,6 +119,17 @@ class _Expr(SymEval):
 
     # --- attribute access on the abstract instance
     def e_Attribute(self, n):
+        if not (isinstance(n.value, ast.Name) and n.value.id in self.np_names):
+            try_base = None
+            if isinstance(n.value, ast.Name) and n.value.id in self.env and isinstance(self.env[n.value.id], ExtObj):
+                try_base = self.env[n.value.id]
+            if try_base is not None:
+                if n.attr in try_base.attrs:
+                    return try_base.attrs[n.attr]
+                raise Raised("AttributeError")
+        return self._e_Attribute_rec(n)
+
+    def _e_Attribute_rec(self, n):
         if isinstance(n.value, ast.Name) and n.value.id in self.np_names:
             return super().e_Attribute(n)
         base = self.eval(n.value)
@@ -407,8 +430,14 @@ class _Expr(SymEval):
                         args.extend(list(v_) if not isinstance(v_, np.ndarray) else [v_[i_] for i_ in range(v_.shape[0])])
                     else:
                         args.append(self.eval(a))
-                kw = {k.arg: self.eval(k.value) for k in n.keywords if k.arg is not None}
-                if any(isinstance(v, (Sym, Rec, np.ndarray)) for v in list(args) + list(kw.values())):
+                kw = {}
+                for k in n.keywords:
+                    if k.arg is None:
+                        kw.update(self.eval(k.value))
+                    else:
+                        kw[k.arg] = self.eval(k.value)
+                used = {fn_.split(".")[0].split("[")[0] for _, fn_, _, _ in __import__("string").Formatter().parse(base) if fn_}
+                if any(isinstance(v, Sym) or (isinstance(v, np.ndarray) and v.dtype == object) for kk, v in kw.items() if kk in used) or any(isinstance(v, (Sym, Rec)) for v in args):
                     raise NotSymbolic("str.format of a symbolic value")
                 return _prog_call(base.format, *args, **kw)
             if isinstance(base, _re.Pattern) and f.attr in ("search", "match", "fullmatch", "findall"):
@@ -425,6 +454,13 @@ class _Expr(SymEval):
                 kw = {k.arg: self.eval(k.value) for k in n.keywords if k.arg is not None}
                 res = _prog_call(getattr(base, f.attr), *args, **kw)
                 return list(res) if f.attr in ("items", "keys", "values") else res
+        if isinstance(f, ast.Name) and f.id in self.env and isinstance(self.env[f.id], tuple) and len(self.env[f.id]) == 2 and self.env[f.id][0] == "<function>":
+            target = self.env[f.id][1]
+            args = [self.eval(a) for a in n.args]
+            kw = {k.arg: self.eval(k.value) for k in n.keywords if k.arg is not None}
+            if callable(target):
+                return target(args, kw)  # a model callback supplied by the rule
+            return self.owner.run_free(target, args, kw)
         if isinstance(f, ast.Name) and f.id not in self.env:
             r = self.owner.prog.lookup(None, getattr(self.owner, "module", None) or self.owner.cls.module, f.id)
             if r is not None and r[0] == "func":
@@ -440,6 +476,8 @@ class _Expr(SymEval):
                 if stub is not None:
                     return stub(args, kw)
                 return self.owner.run_free(g, args, kw)
+            if r is not None and r[0] == "external" and r[1] in getattr(self.owner, "ext_stubs", {}):
+                return self.owner.ext_stubs[r[1]]([self.eval(a) for a in n.args], {k.arg: self.eval(k.value) for k in n.keywords if k.arg is not None})
             if r is not None and r[0] == "external" and r[1] in _PURE_EXTERNALS:
                 args = [self.eval(a) for a in n.args]
                 if not all(isinstance(a, str) for a in args):
@@ -514,8 +552,10 @@ class _Expr(SymEval):
             if f.id == "print":
                 kw = {k.arg: self.eval(k.value) for k in n.keywords}
                 sink = kw.get("file")
+                if sink is None and "file" not in kw:
+                    sink = self.owner.__dict__.setdefault("stdout", TextSink())  # the process's standard output
                 if not isinstance(sink, TextSink):
-                    raise NotSymbolic("print without a model output file")
+                    raise NotSymbolic("print to something that is not a model output file")
                 vals = [self.eval(a) for a in n.args]
                 if any(isinstance(v, (Sym, Rec)) or (isinstance(v, np.ndarray) and v.dtype == object) for v in vals):
                     raise NotSymbolic("print of a symbolic value")
@@ -540,8 +580,30 @@ class _Expr(SymEval):
                 return v if isinstance(v, (Sym, np.ndarray)) else {"int": int, "float": float}[f.id](v)
             if f.id == "len" and n.args:
                 return len(self.eval(n.args[0]))
-            if f.id == "isinstance":
-                raise NotSymbolic("isinstance")
+            if f.id == "isinstance" and len(n.args) == 2:
+                v = self.eval(n.args[0])
+                if isinstance(v, (Sym, np.ndarray)):
+                    raise NotSymbolic("isinstance of a symbolic / array value")
+                kinds = n.args[1].elts if isinstance(n.args[1], ast.Tuple) else [n.args[1]]
+                mod_ = getattr(self.owner, "module", None) or (self.owner.cls.module if self.owner.cls is not None else None)
+                for k in kinds:
+                    if isinstance(k, ast.Name) and k.id in ("str", "int", "float", "dict", "list", "tuple", "bool") and k.id not in self.env:
+                        if isinstance(v, {"str": str, "int": int, "float": float, "dict": dict, "list": list, "tuple": tuple, "bool": bool}[k.id]) and not (k.id == "int" and isinstance(v, bool)):
+                            return True
+                        continue
+                    r = self.owner.prog.resolve_expr(None, mod_, k) if mod_ is not None else None
+                    if r is not None and r[0] == "class":
+                        if isinstance(v, Rec) and v.cls is not None and (v.cls is r[1] or r[1].qualname in getattr(v.cls, "mro_names", ()) or any(b is r[1] for b in getattr(v.cls, "bases_resolved", ()))):
+                            return True
+                        continue
+                    if r is not None and r[0] == "external":
+                        if isinstance(v, ExtObj) and v.kind == r[1]:
+                            return True
+                        if isinstance(v, TextSink) and r[1] in ("io.TextIOBase", "typing.TextIO", "io.IOBase"):
+                            return True
+                        continue
+                    raise NotSymbolic(f"isinstance against {ast.unparse(k)}")
+                return False
             if f.id in ("int", "float"):
                 return f.id
         return super().e_Call(n)
